@@ -2206,6 +2206,27 @@ def m_pathcounts_get(ex, st, obj, args, kwargs, node):
     return [(st, VInt(PCOUNT(k.t)))] if isinstance(k, VStr) else ex.havoc_call(st, "PathCounts.get", args, node)
 
 
+NPARTS = z3.Function("str_split_count", S, S, I)
+PART = z3.Function("str_split_part", S, S, I, S)
+
+
+def m_str_split(ex, st, args, kwargs, node):
+    """s.split(sep) with a constant non-empty separator (PY-STR-SPLIT, ASSUMED view): a list of n >= 1 pieces PART(s, sep, i),
+    none of which contains sep; s starts with piece 0 (followed by sep when n > 1, the whole of s when n == 1) and ends with
+    the last piece; n == 1 exactly when sep does not occur in s.  (Facts true of every split; not a complete axiomatisation:
+    what does not follow from them is `unknown` and goes to the replayer.)"""
+    sep = args[1].const() if len(args) == 2 and isinstance(args[1], VStr) else None
+    if kwargs or not isinstance(args[0], VStr) or not isinstance(sep, str) or not sep:
+        return ex.havoc_call(st, "str.split", args, node)
+    t, sp = args[0].t, z3.StringVal(sep)
+    n = NPARTS(t, sp)
+    first, last = PART(t, sp, z3.IntVal(0)), PART(t, sp, n - 1)
+    st.assume(z3.And(n >= 1, (n == 1) == z3.Not(z3.Contains(t, sp)), z3.Implies(n == 1, first == t),
+                     z3.Implies(n > 1, z3.PrefixOf(z3.Concat(first, sp), t)), z3.Implies(n > 1, z3.SuffixOf(z3.Concat(sp, last), t)),
+                     z3.Not(z3.Contains(first, sp)), z3.Not(z3.Contains(last, sp))))
+    return [(st, VSeq(n, lambda i: VStr(PART(t, sp, i)), "str", tag=("split", t, sep)))]
+
+
 def str_fn(name, F):
     """uninterpreted str -> str library function; anything else is an unmodelled call"""
     def m(ex, st, args, kwargs, node):
@@ -2250,6 +2271,7 @@ def install_members(reg):
     reg.method_models[("seq", "startswith")] = m_seq_startswith
     reg.method_models[("PathCounts", "get")] = m_pathcounts_get
     reg.ext_models["os.path.normpath"] = str_fn("os.path.normpath", NORMPATH)
+    reg.ext_models["str.split"] = m_str_split
     reg.method_models[("Stream7z", "seek")] = m_stream_seek
     reg.ext_models[("const", "os.SEEK_END")] = VInt(2)
     common.install_clock(reg)
